@@ -3,6 +3,7 @@ package transformer
 import (
 	"errors"
 	"fmt"
+	"maps"
 	"slices"
 	"strings"
 
@@ -131,7 +132,10 @@ func TransformModuleFilesToModel( //nolint:funlen,gocognit,cyclop
 			rawTypeDefs = append(rawTypeDefs, typeDef)
 		}
 
-		for name, condition := range mdl.GetConditions() {
+		// iterate in a fixed order so that the error list does not depend on map iteration
+		for _, name := range slices.Sorted(maps.Keys(mdl.GetConditions())) {
+			condition := mdl.GetConditions()[name]
+
 			if _, ok := conditions[name]; ok {
 				lineIndex := utils.GetConditionLineNumber(name, lines)
 				line, col := utils.ConstructLineAndColumnData(lines, lineIndex, name)
@@ -160,7 +164,17 @@ func TransformModuleFilesToModel( //nolint:funlen,gocognit,cyclop
 		}
 	}
 
-	for filename, typeDefs := range extendedTypeDefs {
+	// apply the extensions file by file in the order the files were given, not in map order
+	for _, module := range modules {
+		filename := module.Name
+
+		typeDefs, ok := extendedTypeDefs[filename]
+		if !ok {
+			continue
+		}
+
+		delete(extendedTypeDefs, filename)
+
 		lines := moduleFiles[filename]
 
 		for _, typeDef := range typeDefs {
@@ -210,7 +224,9 @@ func TransformModuleFilesToModel( //nolint:funlen,gocognit,cyclop
 				existingRelationNames = append(existingRelationNames, name)
 			}
 
-			for name, relation := range typeDef.GetRelations() {
+			for _, name := range slices.Sorted(maps.Keys(typeDef.GetRelations())) {
+				relation := typeDef.GetRelations()[name]
+
 				if slices.Contains(existingRelationNames, name) {
 					lineIndex := utils.GetRelationLineNumber(name, lines)
 					line, col := utils.ConstructLineAndColumnData(lines, lineIndex, name)
